@@ -447,6 +447,16 @@ def callarg_shapes() -> List[Shape]:
          "f2": [], "f3": [keep("/cr/b", "f4", "pass")], "f4": [], "f5": [keep("/cr/c", "f6", "pass")], "f6": []},
         reads={"f2": ["v1"], "f4": ["v2"]}, vtype={"v1": "int", "v2": "int"},
         root_arg=True, tags=["root-argument", "parameter-handed-on", "plain-call-arguments"]))
+    # a callee kept with a run-time argument that itself keeps two siblings, the first one with the
+    # argument handed on: an edit of the later sibling must not re-execute the earlier one (repair
+    # 5a57c38; seeded change R7-C02 undoes it - first found by a random shape of VERIF_SEED=7 only)
+    S.append(Shape(
+        "rtkeep_siblings", "f1",
+        {"f1": [keep("/rk/a", "f2", "runtime")],
+         "f2": [keep("/rk/b", "f3", "pass"), keep("/rk/c", "f4"), keep("/rk/d", "f5", "pass")],
+         "f3": [], "f4": [], "f5": []},
+        reads={"f3": ["v1"], "f4": ["v2"]}, vtype={"v1": "int", "v2": "int"},
+        tags=["runtime-kept-callee-with-kept-siblings", "parameter-handed-on"]))
     return S
 
 
